@@ -100,6 +100,13 @@ impl Timestamp {
         Ok(Self(ans))
     }
 
+    /// The same instant expressed in UTC, which is what the `Z` / `GMT` suffixes of the text formats claim.
+    fn to_utc(&self) -> Result<time::OffsetDateTime, FormatTimestampError> {
+        self.0
+            .checked_to_offset(time::UtcOffset::UTC)
+            .ok_or(FormatTimestampError::Time(time::error::Format::InvalidComponent("offset")))
+    }
+
     /// Formats `Timestamp` into a writer
     ///
     /// # Errors
@@ -107,10 +114,10 @@ impl Timestamp {
     pub fn format(&self, format: TimestampFormat, w: &mut impl io::Write) -> Result<(), FormatTimestampError> {
         match format {
             TimestampFormat::DateTime => {
-                self.0.format_into(w, RFC3339)?;
+                self.to_utc()?.format_into(w, RFC3339)?;
             }
             TimestampFormat::HttpDate => {
-                self.0.format_into(w, RFC1123)?;
+                self.to_utc()?.format_into(w, RFC1123)?;
             }
             TimestampFormat::EpochSeconds => {
                 let val = self.0.unix_timestamp_nanos();
